@@ -198,7 +198,7 @@ def c07(tier, seed):
         ("extreme", "extreme", 150, 3000, 8, ["--detail", "64"]),
     ])
     # budget independence: two-run refinement (Budget.tla)
-    wd = os.path.join(WORK, "C07")
+    wd = wd_of("C07")
     tr, cs, mt = [os.path.join(wd, "budget" + x) for x in (".ndjson", ".cases.ndjson", ".meta.json")]
     cnt = 96 if tier == "quick" else 1500
     run_vh(["budget", "--seed", seed, "--count", cnt, "--kmax", 12 if tier == "quick" else 40,
@@ -267,7 +267,7 @@ def c06(tier, seed):
 
 def _dist_run(summary, env):
     import subprocess, re, shutil
-    md = os.path.join(WORK, "tlc_dist")
+    md = os.path.join(WORK, f"tlc_dist_{os.getpid()}")
     shutil.rmtree(md, ignore_errors=True)
     cmd = ["java", "-Xss1g", "-cp", TLA_CP, "tlc2.TLC", "-workers", "1", "-metadir", md, "-cleanup",
            "-noGenerateSpecTE", "-config", "Dist.cfg", "Dist.tla"]
@@ -286,7 +286,7 @@ def _dist_run(summary, env):
 
 def c04(tier, seed):
     res = ipm_generic("C04", tier, seed, [])
-    wd = os.path.join(WORK, "C04")
+    wd = wd_of("C04")
     tr, cs, dm, mt = [os.path.join(wd, "shapes" + x) for x in (".ndjson", ".cases.ndjson", ".dims.ndjson", ".meta.json")]
     sample = 1500 if tier == "quick" else 0
     p = run_vh(["shapes", "--seed", seed, "--sample", sample, "--out", tr, "--cases", cs, "--dims", dm, "--meta", mt,
@@ -321,6 +321,13 @@ def c04(tier, seed):
     v3 = validate_family(res, "C04", tr3, cs3, "timelimit")
     add_cov(res, v3, m3["runs"], [], "timelimit")
     res.coverage["timelimit_status_histogram"] = m3["status_hist"]
+    # the timers behind solve_time / time_limit: Timers.tla behaviours replayed on the real Timers with real sleeps
+    from props import structs
+    rt = structs.spec_to_impl(res, "C04", "Timers.tla", ["MC_Timers_5.cfg" if tier == "quick" else "MC_Timers.cfg"], "timers-replay", wd, "timers",
+                              workers=8, extra_args=["--every", 8 if tier == "quick" else 3])
+    res.coverage["timers"] = {"states": rt["states"], "behaviours_replayed": rt["behaviours"]}
+    res.coverage["states"] = res.coverage.get("states", 0) + rt["states"]
+    res.coverage["traces_validated_against_impl"] = res.coverage.get("traces_validated_against_impl", 0) + rt["behaviours"]
     if m3["status_hist"].get("MaxTime", 0) == 0 and not res.violations:
         raise ToolError("vacuity guard: no MaxTime verdict produced by the sleep-injection corpus")
     return res
@@ -332,7 +339,7 @@ def c20(tier, seed):
         ("badp", "badscale", 100, 2000, 8, ["--print", "1"]),
     ])
     mcp = run_mc("Print.tla", "MC_Print.cfg", workers=2, timeout=300, name="MC_Print", coverage=False)
-    wd = os.path.join(WORK, "C20")
+    wd = wd_of("C20")
     for k, fam in enumerate(["mixed", "badscale"]):
         tr, cs = [os.path.join(wd, f"print{k}" + x) for x in (".ndjson", ".cases.ndjson")]
         cnt = (120 if tier == "quick" else 3000) // (k + 1)
